@@ -57,6 +57,7 @@ class Timers(SM.Monitor):
         self.hard_deletes = 0
         self.giveups = 0
         self.kinds = set()
+        self.overdue = set()
         self.keep = []         # strong references: id() of a freed IkeSa would be re-used by a later one
         self.note_new(sim)
 
@@ -161,9 +162,15 @@ class Timers(SM.Monitor):
                     sent = [o for o in ev.out if len(o.data) >= 28 and not o.data[19] & 0x20 and
                             (o.data[0:8] if o.data[19] & 0x08 else o.data[8:16]).hex() == own]
                     if not sent:
-                        sim.fail('retransmission-missing', f'a {st0.name} request was due for retransmission (deadline passed '
-                                                           f'{now - rt_at:.1f}s ago, {rtx} of {IkeSa.MAX_RETRANSMISSIONS} transmissions '
-                                                           f'used) but the sweep did not re-send it')
+                        # the sweep removes ended IKE_SAs from the list it walks, so the entry after a removed one is looked at
+                        # one loop pass later: only a request that is still not re-sent by the next pass is missing
+                        if sid in self.overdue:
+                            sim.fail('retransmission-missing', f'a {st0.name} request was due for retransmission (deadline passed '
+                                                               f'{now - rt_at:.1f}s ago, {rtx} of {IkeSa.MAX_RETRANSMISSIONS} '
+                                                               f'transmissions used) but two consecutive sweeps did not re-send it')
+                        self.overdue.add(sid)
+                    else:
+                        self.overdue.discard(sid)
         # per IKE_SA transitions of this event
         for sid, (sa, st0, rt_at, rtx, mid) in pre.items():
             st1 = sa.state
